@@ -161,6 +161,15 @@ impl Outcome {
 /// Worker-side state for one property.
 pub trait WorkerState {
     fn run(&mut self, case: &Case, render: bool) -> Outcome;
+    /// Render a case without executing it (used to describe cases that crash).
+    fn render_only(&mut self, _case: &Case) -> String {
+        String::new()
+    }
+    /// Reduce a failing case at the level of its own structure, keeping the failure
+    /// signature; returns a rendering of the reduced case ("" = not supported).
+    fn reduce(&mut self, _case: &Case, _sig: &str) -> String {
+        String::new()
+    }
 }
 
 /// A property check.
